@@ -33,9 +33,8 @@ TRUSTED = ['hand-written Gallina models Model/Hamiltonians.v, Model/HamIsing.v, 
            'numerical rank decision in harness/hamref.py:schmidt_ranks (SVD, relative threshold 1e-10) - search only']
 PARTIAL = ('proved for all inputs (Properties/C20.v): with certified covers (valid cover + matching of equal size: what C18_mvc_total proves of '
            'minimum_vertex_cover) every layer width of a graph returned by from_opchains is <= the number of chains with non-zero coefficient; '
-           'the model cover routine is certified on every call; simplify never increases the number of nodes or edges (C16) and, per layer, '
-           'see Properties/C20.v. Kernel-computed, BOUNDED in L (L <= 8): closed-form bond dimensions of every built-in model graph for generic '
-           'parameters. NOT proved (numerical, checked by prop only): equality of the bond dimensions with the operator Schmidt rank; '
+           'the model cover routine is certified on every call (so the bound is unconditional for it); simplify / merge_edges on a well-formed graph '
+           '(WF of C16; wfb evaluated per case) never add a layer and never widen one (layers = level sets; C20_simplify_bond_le). Kernel-computed, BOUNDED in L (L <= 8) and at sample parameter values: closed-form bond dimensions of every built-in model graph. NOT proved (numerical, checked by prop only): equality of the bond dimensions with the operator Schmidt rank; '
            'the optimized molecular constructions (no Coq model here: prop only).')
 ASSUMPTIONS = ['"generic parameters" = random non-zero reals / complex numbers drawn per case; rank decided numerically with relative threshold 1e-10',
                'the molecular constructions are covered at implementation level only (prop), L <= 6 (spin: L <= 3)']
@@ -85,7 +84,7 @@ def gen_paths_graph(rng):
 
 def cases(rng, tier):
     out = []
-    nb = {'quick': 84, 'thorough': 600, 'search': 120}[tier]
+    nb = {'quick': 132, 'thorough': 600, 'search': 120}[tier]
     for k in range(nb):
         model = ['ising', 'xxz', 'xxz1', 'bose', 'fermi', 'linferm'][k % 6]
         c = {'kind': 'builtin', 'model': model, 'p': [_generic(rng) for _ in range(3)], 'seed': rng.getrandbits(30)}
@@ -100,12 +99,12 @@ def cases(rng, tier):
         spin = (k % 3 == 2)
         out.append({'kind': 'molecular', 'spin': spin, 'L': rng.choice([1, 2, 3] if spin else [1, 2, 3, 4, 5, 5, 6]), 'seed': rng.getrandbits(30),
                     'dtype': rng.choice(['real', 'complex'])})
-    nc = {'quick': 70, 'thorough': 600, 'search': 150}[tier]
+    nc = {'quick': 130, 'thorough': 600, 'search': 150}[tier]
     for _ in range(nc):
         c = C5.gen_chains_case(rng)
         c['kind'] = 'chainlist'
         out.append(c)
-    ns = {'quick': 60, 'thorough': 400, 'search': 100}[tier]
+    ns = {'quick': 90, 'thorough': 400, 'search': 100}[tier]
     for k in range(ns):
         if k % 3 == 2:
             c = C5.gen_graph_case(rng)
